@@ -27,6 +27,7 @@ v_collect_dup C10
 v_remove_always_ok C10
 v_map_ignores_names C10
 v_collect_reads_after_unlock C10
+v_collect_try_read_gives_up C10
 v_separator_removed C05
 l_flush_no_zero C12
 l_clone_not_cleared C12
